@@ -94,7 +94,9 @@ func (r *recSink) UpdateEntry(key string, oldEntry *filer_pb.Entry, newParentPat
 	if _, ok := r.tree[key]; !ok {
 		return false, nil
 	}
-	nk := util.Join(newParentPath, newEntry.Name)
+	// like FilerSink.UpdateEntry: the EXISTING sink entry (its own name) is saved under the handed parent path
+	_, existingName := util.FullPath(key).DirAndName()
+	nk := util.Join(newParentPath, existingName)
 	if r.keyOnly {
 		nk = key
 	}
